@@ -273,12 +273,18 @@ def construction(ctx):
     except ValueError:
         refused = True
     conds = [z3.BoolVal(refused) == z3.Not(z3.Or(*[E(v) == s for s in sup]))]
-    for bad in ('1.6.4', 'nonsense', '13w41a', None, 1.5):
-        try:
-            Connection('h', 1, username='u', allowed_versions=[bad])
-            conds.append(z3.BoolVal(False))
-        except ValueError:
-            pass
+    bad_names = [n for n in minecraft.KNOWN_MINECRAFT_VERSIONS
+                 if n not in minecraft.SUPPORTED_MINECRAFT_VERSIONS]
+    for bad in ['1.6.4', 'nonsense', None, 1.5] + bad_names:
+        for kw in ({'allowed_versions': [bad]}, {'initial_version': bad}):
+            if bad is None and 'initial_version' in kw:
+                continue          # None means "not given"
+            try:
+                Connection('h', 1, username='u', **kw)
+                ctx.notes['accepted'] = repr(bad)
+                conds.append(z3.BoolVal(False))
+            except ValueError:
+                pass
     note_key(ctx, 'C09:construction')
     return z3.And(*conds)
 
